@@ -75,6 +75,14 @@ SCHEMAS['3c'] = '''
 #anyauthor: #site/"author"/user/#KEY <= #admin
 #article: #site/"article"/user/title <= #author
 '''
+# the LAST component of an article is constrained by type (a version): /site/article/u/t/v=7 yes, /site/article/u/t/seg=7 no
+SCHEMAS['2v'] = '''
+#KEY: "KEY"/_/_/_
+#site: "site"
+#root: #site/#KEY
+#author: #site/"author"/user/#KEY <= #root
+#article: #site/"article"/user/title/_version & {_version: $eq_type("v=0")} <= #author
+'''
 LEVELS = {1: [], 2: ['author'], 3: ['admin', 'author'], 4: ['oper', 'admin', 'author']}
 
 
@@ -94,7 +102,15 @@ def ref_rules(schema_id):
         if cons:
             for item in cons.strip('{} ').split(','):
                 var, _, opts = item.partition(':')
-                consd[var.strip()] = [o.strip().strip('"').encode() for o in opts.split('|')]
+                parsed = []
+                for o in opts.split('|'):
+                    o = o.strip()
+                    if o.startswith('$eq_type('):
+                        arg = o[len('$eq_type('):-1].strip().strip('"')
+                        parsed.append(('eq_type', tlvref.dec_var(tlvref.name_from_uri('/' + arg)[0], 0)[0]))
+                    else:
+                        parsed.append(('lit', tlvref.tlv(tlvref.T_GENERIC, o.strip('"').encode())))
+                consd[var.strip()] = parsed
         raw[head.strip()] = ([c.strip() for c in pattern.strip().split('/')], consd,
                              [x.strip() for x in signers.split('|') if x.strip()])
 
@@ -118,11 +134,14 @@ def ref_match(rule, name, ctx):
     if len(comps) != len(name):
         return None
     ctx = dict(ctx)
+    tmp = {}            # temporary patterns (_name): local to this rule, never shared between packet and key
     for c, v in zip(comps, name):
         v = bytes(v)
         if c[0] == 'lit':
             if v != c[1]:
                 return None
+        elif c[0] == 'pat' and c[1].startswith('_'):
+            tmp[c[1]] = v
         elif c[0] == 'pat':
             if c[1] in ctx:
                 if ctx[c[1]] != v:
@@ -130,7 +149,11 @@ def ref_match(rule, name, ctx):
             else:
                 ctx[c[1]] = v
     for var, opts in consd.items():
-        if var not in ctx or ctx[var] not in [tlvref.tlv(tlvref.T_GENERIC, o) for o in opts]:
+        val = tmp.get(var, ctx.get(var))
+        if val is None:
+            return None
+        if not any((kind == 'lit' and val == arg) or (kind == 'eq_type' and tlvref.dec_var(val, 0)[0] == arg)
+                   for kind, arg in opts):
             return None
     return ctx
 
@@ -214,7 +237,8 @@ class Pki:
 
     def packet(self, spec):
         """{'user':..,'title':..,'signed_by': label|'digest'|'none'|'nolocator', 'name_user': ...}"""
-        name = Name.from_str(f'/site/article/{spec.get("name_user", spec["user"])}/{spec["title"]}')
+        name = Name.from_str(f'/site/article/{spec.get("name_user", spec["user"])}/{spec["title"]}'
+                             + (f'/{spec["last"]}' if spec.get('last') else ''))
         sb = spec.get('signed_by', self.signer_for_author(spec['user']))
         if sb == 'none':
             signer = None
@@ -433,6 +457,15 @@ class ChainWorld(World):
     def op_validate(self, op):
         t = self.loop.create_task(self._validate(op))
         self.harness_tasks.add(t)
+        if op.get('cancel_after_us') is not None:
+            # this caller gives up (wait_for running out, task cancelled) while its chain is being fetched
+            self.after(op['cancel_after_us'], self._cancel_validation, t, op['vid'])
+
+    def _cancel_validation(self, task, vid):
+        if not task.done():
+            self.stats['fault.caller_cancelled'] += 1
+            self.log('caller-cancel', vid=vid)
+            task.cancel()
 
     async def _validate(self, op):
         inst = self.instances.get(op['iid'])
@@ -472,8 +505,14 @@ class ChainWorld(World):
         except asyncio.TimeoutError:
             self.log('verdict', vid=op['vid'], iid=op['iid'], out='bounded', wire=wire, store=store_snapshot, policy=policy_snapshot)
         except asyncio.CancelledError:
+            self.log('verdict', vid=op['vid'], iid=op['iid'], out='cancelled', wire=wire, store=store_snapshot, policy=policy_snapshot)
             raise
         except BaseException as e:
+            if any(x['k'] == 'caller-cancel' and x['vid'] == op['vid'] for x in self.events):
+                # this is the validation the harness cancelled itself (the library turns the cancellation into
+                # InterestCanceled): nothing to judge
+                self.log('verdict', vid=op['vid'], iid=op['iid'], out='cancelled', wire=wire, store=store_snapshot, policy=policy_snapshot)
+                return
             self.log('verdict', vid=op['vid'], iid=op['iid'], out='error', exc=exc_brief(e), where=innermost_ndn_frame(e),
                      wire=wire, store=store_snapshot, policy=policy_snapshot)
 
@@ -586,7 +625,7 @@ class ChainWorld(World):
             for op in self.scenario['ops']:
                 if op['op'] == 'instance' and op['iid'] == e['iid']:
                     iop = op
-            if iop is None or e['out'] == 'no-instance':
+            if iop is None or e['out'] in ('no-instance', 'cancelled'):
                 continue
             comp = 'cascade' if iop.get('bare') else 'lvs'
             down = facedown_t is not None and e['t'] >= facedown_t
@@ -745,7 +784,18 @@ def generate(rng, seed, tier='quick'):
     extra = {}
     fetch_delay = rng.choice([0, 100, 5000])
     vals = [o for o in ops if o['op'] == 'validate']
-    if vals and depth >= 2 and rng.random() < 0.1:
+    if vals and depth >= 2 and rng.random() < 0.12 and not deviation:
+        # two validations that need the same certificates start together; the first caller gives up while the chain is
+        # being fetched - the second one must not notice
+        v = rng.choice(vals)
+        twin = copy.deepcopy(v)
+        twin['vid'] = max(o['vid'] for o in vals) + 1
+        twin['packet'] = dict(v['packet'], title=v['packet']['title'] + 'b')
+        twin.pop('forge', None)
+        v['cancel_after_us'] = rng.choice([1, 2500, 4000, 7500])
+        ops.insert(ops.index(v) + 1, twin)
+        fetch_delay = 5000
+    elif vals and depth >= 2 and rng.random() < 0.1:
         # the connection goes away while a (often forged) packet's chain is being fetched
         v = rng.choice(vals)
         if rng.random() < 0.6:
@@ -754,6 +804,12 @@ def generate(rng, seed, tier='quick'):
         ops.append({'at': v['at'] + rng.choice([1, 2500, 4999, 7500]), 'op': 'facedown'})
     if not two_roots and depth in (2, 3) and rng.random() < 0.25:
         extra['schema'] = f'{depth}c'        # a component constraint on the signing key's rule
+    elif not two_roots and depth == 2 and rng.random() < 0.2:
+        extra['schema'] = '2v'              # the article's last component is constrained by type
+        for o in ops:
+            if o['op'] == 'validate':
+                o['packet']['title'] = 'same'       # the same object, told apart by its last component only
+                o['packet']['last'] = rng.choice(['v=7', 'v=7', 'seg=7', 'seg=7', 'v=1', None])
     return {'engine': 'trustchain', 'property': 'C14', 'seed': seed, 'two_roots': two_roots, **extra,
             'config': {'turn_cost_us': rng.choice([0, 0, 1]), 'wall_gran_us': 1000},
             'depth': depth, 'members': members, 'keys': keys, 'deviation': deviation, 'ops': ops,
